@@ -119,11 +119,21 @@ CheckPlans(n, v) ==
   IF ~Valid(RawEnv, TRef(n), v) THEN {}      \* out-of-root values of extensible constraints are not C08's
   ELSE {<<OpBuild(1), OpCheck(1)>>}
        \cup {<<OpBuildVal(1, x), OpCheck(1)>> : x \in Corruptions(RawEnv, TRef(n), v)}
+\* C18: encodings whose identifier has no row, or another row than the open type value; then free
+IocStreams(n, x) ==
+  {<<"DER", Enc("DER", TRef(n), x)>>, <<"UPER", Enc("UPER", TRef(n), x)>>, <<"OER", Enc("OER", TRef(n), x)>>,
+   <<"DER", BerVar(Env, TRef(n), x, BerStyles[2])>>}
+  \cup (IF XerWritable(Env, TRef(n), x) THEN {<<"CXER", Ser(XerTokens(Env, n, TRef(n), x), "canon")>>, <<"BXER", Ser(XerTokens(Env, n, TRef(n), x), "lf")>>} ELSE {})
+IocPlans(n, v) ==
+  UNION {{<<OpDecodeAny(1, st[1], st[2], c[1]), OpPrint(1), OpFree(1)>> : st \in IocStreams(n, c[2])} : c \in IocCorruptions(RawEnv, TRef(n), v)}
+  \cup UNION {{<<OpDecodeAny(1, st[1], st[2], c[1]), OpReset(1), OpDecodeInto(1, "DER", Enc("DER", TRef(n), v)), OpEncode(1, "DER"), OpFree(1)>> :
+                 st \in IocStreams(n, c[2])} : c \in Take(IocCorruptions(RawEnv, TRef(n), v), 2)}
 \* C19: the script a thread runs on one of its structures
 ThreadPlans == {<<OpBuild(1), OpEncode(1, s), OpDecode(2, s), OpCompare(1, 2), OpCheck(1), OpPrint(2), OpFree(1), OpFree(2)>> : s \in Syntaxes}
 PlansFor(n, v) ==
   CASE PlanSet = "check" -> CheckPlans(n, v)
     [] PlanSet = "thread" -> ThreadPlans
+    [] PlanSet = "ioc" -> IocPlans(n, v)
     [] PlanSet = "sinks" -> SinkPlans(n, v)
     [] PlanSet = "mutations" -> MutPlans(n, v)
     [] PlanSet = "life" -> LifePlans(n, v)
